@@ -13,7 +13,9 @@ RULE = ("cloud cases: 2-200 atoms of elements C,N,O,S,H,F,Cl,P,Zn on the 0.001 A
         "BondMaker.find_bonds_for_atoms_using_boxes against an O(n^2) reference. A case is "
         "non-trivial when the reference contains >= 1 bond whose atoms lie in different cells.")
 EXPLANATION = "26/26 neighbour directions must be observed with reference bonds for a held verdict"
-ASSUMPTIONS = ["pairs with |d^2 - t^2| < 1e-9 are ties and not judged",
+ASSUMPTIONS = ["pairs with |d^2 - t^2| < 1e-9 are ties and not judged, unless all six coordinates are multiples "
+               "of 0.125 A: the floating-point distance test is then exact and the strict inequality of the "
+               "criterion decides (no bond at exactly 1.5 / 2.0 / 2.5 A)",
                "elements Hg/Ho/He... (symbol starting with H) are not judged: the rule's text does not say "
                "whether they count as hydrogen"]
 ELEMS = ["C", "N", "O", "S", "H", "F", "Cl", "P", "Zn"]
@@ -36,9 +38,13 @@ def generate(tier, seed):
         for delta in (-10, 10):
             cases.append({"kind": "cys", "dir": list(d), "delta": delta,
                           "seed": "%d:cys:%s:%d" % (seed, d, delta), "cost": 3})
+    for k in range(6 if tier == "quick" else 100):
+        cases.append({"kind": "cys", "tie": 1, "seed": "%d:cystie:%d" % (seed, k), "cost": 3})
     ncys = 12 if tier == "quick" else 2000
     for k in range(ncys):
         cases.append({"kind": "cys", "seed": "%d:cys:%d" % (seed, k), "cost": 3})
+    for k in range(6 if tier == "quick" else 120):
+        cases.append({"kind": "ties", "seed": "%d:ties:%d" % (seed, k), "cost": 3})
     npose = 8 if tier == "quick" else 480
     for k in range(npose):
         cases.append({"kind": "pose", "seed": "%d:pose:%d" % (seed, k), "cost": 60})
@@ -133,6 +139,34 @@ def directed(rng, d):
     return atoms
 
 
+TIE_VECTORS = {  # exact-threshold separations whose components are multiples of 0.125 A
+    "H-X": [(1500, 0, 0), (1000, 1000, 500)],
+    "X-Y": [(2000, 0, 0)],
+    "S-S": [(2500, 0, 0), (1500, 2000, 0)],
+}
+
+
+def exact_ties(rng):
+    """Pairs separated by exactly the threshold, all coordinates multiples of 0.125 A: the float
+    arithmetic of the distance test is exact, so the strict inequality of the criterion decides
+    (no bond)."""
+    import itertools as it
+    atoms = []
+    slot = 0
+    for t, vecs in sorted(TIE_VECTORS.items()):
+        e1, e2 = {"H-X": ("H", rng.choice("CNOS")), "X-Y": (rng.choice("CNO"), rng.choice(("C", "S", "Zn"))), "S-S": ("S", "S")}[t]
+        for v in vecs:
+            for perm in set(it.permutations(v)):
+                for signs in it.product((1, -1), repeat=3):
+                    w = tuple(p * s_ for p, s_ in zip(perm, signs))
+                    o = (125 * rng.randrange(-40000, 40000), 8000 * slot + 125 * rng.randrange(-8, 8), 125 * rng.randrange(-400, 400))
+                    slot += 1
+                    atoms.append(mk_atom(e1, *o, idx=len(atoms)))
+                    atoms.append(mk_atom(e2, o[0] + w[0], o[1] + w[1], o[2] + w[2], idx=len(atoms)))
+    rng.shuffle(atoms)
+    return atoms
+
+
 def run_case(case, tier):
     import propka.bonds
     from .. import contracts
@@ -164,6 +198,13 @@ def run_case(case, tier):
         propka.bonds.BondMaker().find_bonds_for_atoms_using_boxes(atoms)
         nb = sum(len(a.bonded_atoms) for a in atoms) // 2
         sample = {"kind": "directed", "dir": d, "pairs": len(atoms) // 2, "bonds": nb}
+    elif kind == "ties":
+        atoms = exact_ties(rng)
+        propka.bonds.BondMaker().find_bonds_for_atoms_using_boxes(atoms)
+        nb = sum(len(a.bonded_atoms) for a in atoms) // 2
+        counts["exact_tie_pairs"] = len(atoms) // 2
+        sample = {"kind": "ties", "pairs": len(atoms) // 2, "bonds": nb}
+        classes.append("exact-ties")
     elif kind == "cys":
         sample = cys_case(rng, viol, counts, case)
     else:
@@ -225,6 +266,14 @@ def cys_case(rng, viol, counts, case=None):
     r2 = pdbio.move(res, rot, (0, 0, 0))
     sg2 = [a for a in r2 if a.aname() == "SG"][0]
     v = [int(round(d[k] * (2500 + delta) / math.sqrt(m))) for k in range(3)]
+    tie = bool(case and case.get("tie"))
+    if tie:
+        # SG-SG exactly 2.5 A with both sulfurs on multiples of 0.125 A: exact arithmetic, no bridge
+        target = [125 * rng.randrange(-4000, 4000) for _ in range(3)]
+        r1 = pdbio.move(res, pdbio.IDENTITY, (target[0] - sg.x, target[1] - sg.y, target[2] - sg.z))
+        v = list(rng.choice(TIE_VECTORS["S-S"]))
+        rng.shuffle(v)
+        v = [c * rng.choice((1, -1)) for c in v]
     r2 = pdbio.move(r2, pdbio.IDENTITY, (target[0] + v[0] - sg2.x, target[1] + v[1] - sg2.y, target[2] + v[2] - sg2.z))
     for a in r1:
         a.chain, a.resnum, a.icode = "A", 10 + a.resnum - n0, " "
@@ -238,16 +287,20 @@ def cys_case(rng, viol, counts, case=None):
     if rng.random() < 0.4:
         # the bridged / unbridged state must not depend on a titrate-only list naming the residues
         opts = ["-i", "A:%d,B:%d" % (11, 21)] if rng.random() < 0.7 else ["-i", "A:11"]
-    run = obs.run_single(pdbio.dump(recs), opts, with_atoms=True)
+    run = obs.run_single(pdbio.dump(recs), opts, with_atoms=True, keep_mol=True)
     counts["pipeline_runs"] = 1
+    if not run.exc:
+        bridged_carries_no_charge(run, viol, counts)
     if opts:
         counts["cys_cases_with_titrate_only"] = counts.get("cys_cases_with_titrate_only", 0) + 1
     desc = {"kind": "cys", "opts": opts, "sg_sg_A": math.sqrt(d2) / 1000.0, "dir": d, "eps_mA": eps, "exc": run.exc}
     if run.exc:
         viol.append({"cls": "bonds-exception", "msg": "single() raised %s on a two-CYS input" % run.exc})
         return desc
-    if d2 == 2500 ** 2:
+    if d2 == 2500 ** 2 and not tie:
         return desc
+    if tie:
+        counts["cys_exact_ties"] = 1
     expect_bridge = d2 < 2500 ** 2
     conf = run.rec["confs"][run.rec["names"][0]]
     cys = [g for g in conf["groups"] if g["rtype"] == "CYS"]
@@ -279,6 +332,26 @@ def cys_case(rng, viol, counts, case=None):
     return desc
 
 
+def bridged_carries_no_charge(run, viol, counts):
+    """'A bridged cysteine is not titrated': it contributes no charge at any pH, in the folded and in
+    the unfolded curve (Henderson-Hasselbalch sum over the groups that do titrate)."""
+    from ..oracles import hh
+    for cname in run.rec["names"][:2] + ["AVR"]:
+        groups = run.rec["confs"][cname]["groups"]
+        nb = sum(1 for g in groups if g["rtype"] == "CYS" and g["bridge"])
+        if not nb:
+            continue
+        conf = run.mol.conformations[cname]
+        for ph in (7.0, 9.0, 11.0, 14.0):
+            qu, qf = conf.calculate_charge(run.mol.version.parameters, ph=ph)
+            counts["bridged_charge_checks"] = counts.get("bridged_charge_checks", 0) + 1
+            eu, ef = hh.total_charge(groups, ph, "unfolded"), hh.total_charge(groups, ph, "folded")
+            if abs(qu - eu) > 1e-6 or abs(qf - ef) > 1e-6:
+                viol.append({"cls": "bridged-cys-carries-charge", "msg": "%s pH %.1f: charge unfolded/folded %.4f/%.4f, sum over the titrating groups "
+                             "%.4f/%.4f (%d bridged CYS)" % (cname, ph, qu, qf, eu, ef, nb)})
+                return
+
+
 def pose_case(rng, viol, counts):
     from .. import obs, pdbio, sources
     name = rng.choice(sources.PROTEINS)
@@ -289,11 +362,12 @@ def pose_case(rng, viol, counts):
     if not pdbio.fits(recs):
         recs = pdbio.move(sources.full_protein(name), rot, (0, 0, 0))
         tr = (0, 0, 0)
-    run = obs.run_single(pdbio.dump(recs), write_pka=False)
+    run = obs.run_single(pdbio.dump(recs), write_pka=False, keep_mol=True)
     counts["pipeline_runs"] = 1
     if run.exc:
         viol.append({"cls": "bonds-exception", "msg": "single() raised %s on %s" % (run.exc, name)})
     else:
+        bridged_carries_no_charge(run, viol, counts)
         conf = run.rec["confs"][run.rec["names"][0]]
         for g in conf["groups"]:
             if g["rtype"] == "CYS" and (g["bridge"] != (abs(g["pka"] - 99.99) < 1e-9) or g["bridge"] == g["titratable"]):
